@@ -200,10 +200,9 @@ def check_views(repo, rep, which):
         status, detail, q = classify_distance(d, slots, coeff, sq)
         rule = RS if name == 'pair_score' else (
             RQ if name == 'get_metric(squared=True)' else RF)
-        if which == 'C01' or rule == RQ or name == 'score_pairs':
-          if not (which == 'C01' and rule == RQ) and \
-                  not (which == 'C02' and rule in (RF, RS) and
-                       name != 'score_pairs'):
+        if (which == 'C01' and rule != RQ) or \
+                (which == 'C02' and name != 'pair_score'):
+          if True:
             rep.add(rule, key, status, site(f), detail,
                     sample=dict(rule=rule, view=key, normal_form=repr(d))
                     if n in (1, 3, 4) else None)
